@@ -121,16 +121,16 @@ def replay_states(states, seed):
     return n, nontriv, fails[:40], sample, skipped
 
 
-def _vt_worker(seed, n):
+def _vt_worker(seed, n, p_fail=0.0):
     import views_trace as VT
-    return VT.record_batch(seed, n)
+    return VT.record_batch(seed, n, p_fail)
 
 
-def trace_views(ck, nfiles):
+def trace_views(ck, nfiles, p_fail=0.0):
     """code -> spec: random merchants and views files through the real code, validated by Trace_Views."""
     import copy
     from props.totals_common import run_trace_sharded
-    outs = par.pmap(_vt_worker, [ck.seed * 6007 + 13 * s + 2 for s in range(16)], extra=(max(1, nfiles // 16),))
+    outs = par.pmap(_vt_worker, [ck.seed * 6007 + 13 * s + 2 for s in range(16)], extra=(max(1, nfiles // 16), p_fail))
     by_id, skipped = {}, 0
     for rs, sk in outs:
         skipped += sk
